@@ -191,3 +191,25 @@ Proof.
     + right; left; exists x0; auto.
     + right; right; right; exact H1.
 Qed.
+
+(** ** association lists *)
+Lemma ag_as_same {A} k (v : A) m : aget k (aset k v m) = Some v.
+Proof.
+  induction m as [|[k' w] r IH]; cbn; [rewrite Z.eqb_refl; reflexivity|].
+  destruct (Z.eqb k' k) eqn:E; cbn; rewrite E; auto.
+Qed.
+Lemma ag_as_other {A} k k2 (v : A) m : k2 <> k -> aget k2 (aset k v m) = aget k2 m.
+Proof.
+  intros Hne. induction m as [|[k' w] r IH]; cbn.
+  - destruct (Z.eqb_spec k k2); [congruence|reflexivity].
+  - destruct (Z.eqb_spec k' k); cbn.
+    + subst. destruct (Z.eqb_spec k k2); [congruence|reflexivity].
+    + destruct (Z.eqb k' k2); auto.
+Qed.
+Lemma ag_adel_other {A} k k2 (m : list (Z * A)) : k2 <> k -> aget k2 (adel k m) = aget k2 m.
+Proof.
+  intros Hne. induction m as [|[k' w] r IH]; cbn; [reflexivity|].
+  destruct (Z.eqb_spec k' k); cbn.
+  - subst. destruct (Z.eqb_spec k k2); [congruence|reflexivity].
+  - destruct (Z.eqb k' k2); auto.
+Qed.
